@@ -98,14 +98,14 @@ var props = []*PropDef{
 	{
 		ID:     "C07",
 		Level:  "other",
-		Funcs:  base1D,
+		Funcs:  append([]string{"code39.getChecksum", "code39.prepare", "code39.EncodeWithColor", "code39.Encode"}, base1D...),
 		Tables: []string{"code39/tables", "code93/tables"},
 		Harness: []Harness{
-			{Pkg: "code39", File: "c07_code39_test.go", Run: "^TestVerifC07Code39$", Bound: boundedNote + "round trip through onedspec.C39Decode/C39CheckChar/C39FullASCIIDecode in all four option combinations over all 128 ASCII characters"},
-			{Pkg: "code93", File: "c07_code93_test.go", Run: "^TestVerifC07Code93$", Bound: boundedNote + "round trip through onedspec.C93Decode/C93Checks/C93FullASCIIDecode in all four option combinations (includeChecksum=false: check character C still emitted - known finding, accepted when C is correct)"},
+			{Pkg: "code39", File: "c07_code39_test.go", Run: "^TestVerifC07Code39$", Bound: "cross-check of the Code 39 proof on the running code: round trip through onedspec.C39Decode/C39CheckChar/C39FullASCIIDecode in all four option combinations over all 128 ASCII characters"},
+			{Pkg: "code93", File: "c07_code93_test.go", Run: "^TestVerifC07Code93$", Bound: boundedNote + "round trip through onedspec.C93Decode/C93Checks/C93FullASCIIDecode in all four option combinations"},
 		},
-		Assumptions: []string{asmBitlist, "prepare/getChecksum/EncodeWithColor of both packages are NOT under contract yet (string building and map iteration): decode-back rests on the bounded stand-in"},
-		Note:        "[T] both character tables (patterns, check values a bijection) and both full-ASCII tables (every entry decodes to its index under the standard's table) are right; [P] the image type renders the bit list. Assembly and check characters: bounded.",
+		Assumptions: []string{asmBitlist, asmUTF8, "Code 39: inputs of at most 2 000 000 bytes (BitList capacity bound of the contracts)", "Code 93: prepare/getChecksum/EncodeWithColor are NOT under contract (rune-indexed weights over multi-byte function characters): decode-back rests on the bounded stand-in"},
+		Note:        "Code 39 [P], for every input and all four option combinations: accepted exactly when the drawn text consists of the 43 data characters (full ASCII mode: when the input is ASCII); the drawn text is the input resp. its full-ASCII spelling by the standard's pair table (prepare: recursive offset function); the symbol is * text [check] *, 12 modules per character from the standard's element table with narrow gaps; the check character is the modulo-43 character (getChecksum: recursive sum; the search over the map is proved order independent, the fall-through return unreachable). [T] both character tables and both full-ASCII tables; [P] the image type. Code 93 assembly and check characters: bounded.",
 	},
 	{
 		ID:     "C08",
@@ -143,7 +143,7 @@ var props = []*PropDef{
 		Level:  "other",
 		Unwind: []*Unwinder{unwEAN, unwPDF, unwAztec, unwDM, unwSelect, unwQRBlocks},
 		Funcs: append(append([]string{}, bitlistFuncs...), "utils.(*GaloisField).Multiply", "utils.(*GaloisField).Divide", "utils.(*GaloisField).Invers",
-			"twooffive.EncodeWithColor", "twooffive.Encode", "twooffive.AddCheckSum", "codabar.EncodeWithColor", "codabar.Encode", "datamatrix.addPadding", "datamatrix.encodeText"),
+			"twooffive.EncodeWithColor", "twooffive.Encode", "twooffive.AddCheckSum", "codabar.EncodeWithColor", "codabar.Encode", "code39.EncodeWithColor", "code39.Encode", "datamatrix.addPadding", "datamatrix.encodeText"),
 		Harness: []Harness{
 			{Pkg: "qr", File: "c01_qr_test.go", Run: "^TestVerifC10QR$", Bound: boundedNote + "no panic, result xor error, accept iff expressible in the mode and within version-40 capacity"},
 			{Pkg: "datamatrix", File: "c02_dm_test.go", Run: "^TestVerifC10DM$", Bound: boundedNote + "accept iff <= 1558 ASCII-encodation codewords"},
@@ -156,11 +156,11 @@ var props = []*PropDef{
 			{Pkg: "twooffive", File: "c08_twooffive_test.go", Run: "^TestVerifC10TwoOfFive$", Bound: boundedNote},
 		},
 		Assumptions: []string{asmBitlist, asmStages, asmUTF8, "the zero-annotation no-panic sweep (bounds, nil, division, slice, conversion, explicit panic obligations) is discharged for the functions executed by the unwinding families (EAN completely; PDF417, Aztec drawing, DataMatrix render/ECC per configuration) and for the utils functions under contract; the string-processing front ends of the other symbologies are covered by the bounded stand-ins only"},
-		Note:        "Safety obligations (index, slice, nil, division by zero, conversion, explicit panic, overflow) generated for every instruction executed by the [C] families and the [P] functions are all discharged; exact acceptance is proved for EAN, 2 of 5 and Codabar (all inputs; Codabar under the assumed regexp contract), PDF417 (by codeword count), the QR/DataMatrix/Aztec size selections; bounded elsewhere.",
+		Note:        "Safety obligations (index, slice, nil, division by zero, conversion, explicit panic, overflow) generated for every instruction executed by the [C] families and the [P] functions are all discharged; exact acceptance is proved for EAN, 2 of 5, Code 39 and Codabar (all inputs; Codabar under the assumed regexp contract), PDF417 (by codeword count), the QR/DataMatrix/Aztec size selections; bounded elsewhere.",
 	},
 	{
 		ID:     "C11",
-		Funcs:  append([]string{"twooffive.EncodeWithColor", "twooffive.Encode", "codabar.EncodeWithColor", "codabar.Encode"}, base1D...),
+		Funcs:  append([]string{"twooffive.EncodeWithColor", "twooffive.Encode", "codabar.EncodeWithColor", "codabar.Encode", "code39.EncodeWithColor", "code39.Encode"}, base1D...),
 		Unwind: []*Unwinder{unwEAN, unwAztec, unwDM, unwPDF, unwQR},
 		// of the aztec family only the obligations about the result object's accessors belong here
 		// (the empty-payload defect F6 shows up in the mode message: C03/C10)
@@ -203,7 +203,7 @@ var props = []*PropDef{
 	},
 	{
 		ID:     "C14",
-		Funcs:  append([]string{"barcode.(*intCSscaledBC).CheckSum", "barcode.newScaledBC"}, base1D...),
+		Funcs:  append([]string{"barcode.(*intCSscaledBC).CheckSum", "barcode.newScaledBC", "code39.getChecksum", "code39.EncodeWithColor", "code39.Encode"}, base1D...),
 		Unwind: []*Unwinder{unwEAN},
 		Tables: []string{"code128/tables", "code39/tables", "code93/tables"},
 		Harness: []Harness{
@@ -211,8 +211,8 @@ var props = []*PropDef{
 			{Pkg: "code39", File: "c07_code39_test.go", Run: "^TestVerifC14Code39$", Bound: boundedNote + "CheckSum() == mod-43 value in all four configurations, unchanged by Scale"},
 			{Pkg: "ean", File: "c06_ean_test.go", Run: "^TestVerifC14EAN$", Bound: "cross-check of the complete EAN proof"},
 		},
-		Assumptions: []string{"Code 128 and Code 39 checksum computations are not under contract yet: bounded stand-in"},
-		Note:        "EAN: [C] CheckSum() equals the GS1 check digit on every success path of every length (complete). Storage and forwarding: [P] base1DCodeIntCS.CheckSum returns the stored value, newScaledBC wraps iff the source has a checksum and intCSscaledBC.CheckSum forwards it. Code 128 / Code 39 values: bounded.",
+		Assumptions: []string{"Code 128 checksum computation is not under contract yet: bounded stand-in"},
+		Note:        "EAN: [C] CheckSum() equals the GS1 check digit on every success path of every length (complete). Storage and forwarding: [P] base1DCodeIntCS.CheckSum returns the stored value, newScaledBC wraps iff the source has a checksum and intCSscaledBC.CheckSum forwards it. Code 39 [P]: CheckSum() is the modulo-43 value of the drawn text in every mode (the same text the check character is computed from). Code 128 value: bounded.",
 	},
 	{
 		ID:     "C15",
